@@ -90,17 +90,24 @@ class TupleCoord(recordclass.RecordClass, _IterableStub):
         # The recordclass base brings its own __ne__, which knows nothing of the __eq__ above
         return not self.__eq__(other)
 
+    def _ordering_pairs(self, other):
+        # zip() alone would silently skip the components the other side doesn't have,
+        # and all() of nothing is True.
+        if len(other) != len(self):
+            raise TypeError(f"Can't order {self!r} against {other!r}")
+        return zip(self, other)
+
     def __gt__(self, other):
-        return all(x > y for x, y in zip(self, other))
+        return all(x > y for x, y in self._ordering_pairs(other))
 
     def __lt__(self, other):
-        return all(x < y for x, y in zip(self, other))
+        return all(x < y for x, y in self._ordering_pairs(other))
 
     def __ge__(self, other):
-        return all(x >= y for x, y in zip(self, other))
+        return all(x >= y for x, y in self._ordering_pairs(other))
 
     def __le__(self, other):
-        return all(x <= y for x, y in zip(self, other))
+        return all(x <= y for x, y in self._ordering_pairs(other))
 
     def __repr__(self):
         return f"{self.__class__.__name__}{tuple(self)!r}"
